@@ -52,9 +52,8 @@ def observe_case(spec):
     logging.disable(logging.CRITICAL)
     from lark import Lark, Tree, Token
     from lark.utils import TextSlice
-    terms = c07.build(spec)
     tg = spec['tree_grammar']
-    case = {'skip': '', 'runs': [], 'spec': spec, 'gtext': tg, 'family': 'F_win', 'T': [], 'rank': {}, 'SM': [], 'order': []}
+    case = {'skip': '', 'runs': [], 'spec': spec, 'gtext': tg, 'family': spec.get('family', 'F_win'), 'T': [], 'rank': {}, 'SM': [], 'order': []}
     cfgs = [('lalr/basic', 'lalr', 'basic'), ('lalr/contextual', 'lalr', 'contextual'), ('earley/basic', 'earley', 'basic'),
             ('earley/dynamic', 'earley', 'dynamic'), ('earley/dynamic_complete', 'earley', 'dynamic_complete')]
     for cfgname, parser, lexer in cfgs:
@@ -75,6 +74,10 @@ def observe_case(spec):
             except Exception as e:
                 referr = e
             variants = [('bytes-substring', pb, sub.encode('latin1'), 0, sub)]
+            if dyn and a == 0 and b == len(buf):
+                # the dynamic lexers take a slice only if it is the complete text
+                variants.append(('complete-slice', ps, TextSlice(buf, 0, len(buf)), 0, buf))
+                variants.append(('bytes-complete-slice', pb, TextSlice(buf.encode('latin1'), 0, len(buf)), 0, buf))
             if not dyn:
                 variants.append(('slice', ps, TextSlice(buf, a, b), a, buf))
                 variants.append(('bytes-slice', pb, TextSlice(buf.encode('latin1'), a, b), a, buf))
@@ -109,8 +112,26 @@ def observe_case(spec):
     return case
 
 
+# regexps whose pattern holds a character above 0x7f (written with an ASCII escape: the grammar stays ASCII) next to a
+# quantifier: in bytes mode the pattern has to be encoded one byte per character (latin-1, as Scanner does) or the quantifier
+# binds to the last byte of a multi-byte sequence (hunted defect 27: the dynamic lexers encoded with utf-8)
+HIGH = [
+    'start: W+\nW: /\\xe9?a/\n%ignore " "\n',
+    'start: (W | B)+\nW: /a\\xe9*/\nB: "b"\n%ignore " "\n',
+    'start: W+\nW: /(\\xe9|b)?a/\n%ignore " "\n',
+    'start: (W | B)+\nW: /[\\x80-\\xff]*a+/\nB: "b" "\\xff"?\n%ignore /[ \\xa0]+/\n',
+]
+
+
 def specs(tier, rng):
     out = []
+    for tg in HIGH:
+        windows = []
+        for _ in range(30):
+            buf = ''.join(rng.choice('ab a') for _ in range(rng.randint(1, 6)))
+            a = rng.randint(0, len(buf) - 1)
+            windows += [[buf, 0, len(buf)], [buf, a, rng.randint(a, len(buf))]]
+        out.append({'terms': [], 'tree_grammar': tg, 'windows': windows, 'texts': [], 'family': 'F_high'})
     keys = ['A', 'B', 'AB', 'ONE', 'PLUS', 'LOW', 'NUM', 'WS', 'SPT', 'NL', 'NOTA', 'AS', 'CTRL', 'SP', 'NLSTR', 'NONW']
     for i in range(C.scale(900 if tier == 'quick' else 9000)):
         terms = L.random_termset(rng, keys=keys, newline_bias=True)
@@ -162,7 +183,7 @@ def judge(cases, ev, rep, tmp, name):
 
 def body(tier, seed, replay):
     ev = C.Evidence(PID, tier, seed)
-    rep = C.Reporter(PID, ev)
+    rep = C.Reporter(PID, ev, lambda fnd, case: fnd['match']['kind'] == 'end-without-token' and case.get('clause', '').endswith('@end-without-token'))
     rng = random.Random(seed)
     tmp = C.scratch_dir('c15_')
     try:
